@@ -321,6 +321,8 @@ def run_prob(spec, props=("C12",)):
     fn = spec["fn"]
     n = spec["n"]; nodes = list(range(n))
     G = gr.mk(n, [tuple(e) for e in spec["edges"]])
+    if spec.get("directed"):
+        G = nx.DiGraph(); G.add_nodes_from(range(n)); G.add_edges_from([tuple(e) for e in spec["edges"]])     # contacts only along edge direction
     p = spec["p"]
     I0 = list(spec["I0"]); R0 = list(spec.get("R0", []))
     tmin = num(spec.get("tmin", 0)); tmax = num(spec.get("tmax", "inf"))
@@ -524,6 +526,14 @@ def specs(tier):
                                             tmax=4, full=full, test_recovery=True, refusals=2, xargs=True))
                             out.append(dict(kind="rules", fn="discrete_SIR", n=n, edges=es, I0=list(I0), R0=[], tmin=0,
                                             tmax="inf", full=full, xargs=True))
+        # probabilistic wrappers on directed contact networks
+        if n == 3 and len(es) == 2 and tuple(map(tuple, es)) == ((0, 1), (1, 2)):
+            for des in ([(0, 1), (1, 2)], [(1, 0), (1, 2)], [(0, 1), (1, 0), (1, 2)], [(0, 1), (1, 2), (2, 0)]):
+                for fn in ("basic_discrete_SIR", "basic_discrete_SIS"):
+                    for I0 in ([0], [1], [2]):
+                        for p in (0.3, 1.0):
+                            out.append(dict(kind="prob", fn=fn, n=3, edges=des, directed=True, p=p, I0=list(I0), R0=[], tmin=0,
+                                            tmax=("inf" if not fn.endswith("SIS") else 3), full=False))
         # probabilistic wrappers
         for fn in ("basic_discrete_SIR", "percolation_based_discrete_SIR", "basic_discrete_SIS"):
             sis = fn.endswith("SIS")
